@@ -137,8 +137,10 @@ def build_harness(release, report):
     return rc == 0
 
 
-def run_cases(pid, seed, n, tier, release, report, tagsuffix=""):
-    """emit cases, run driver, diff. returns (stats, disagreements[list], ncases, ops, imp)"""
+def run_cases(pid, seed, n, tier, release, report, tagsuffix="", model=True):
+    """emit cases, run driver, diff. returns (stats, disagreements[list], ncases, ops, imp).
+    model=False: only the implementation side (harness + oracle) is run — used by the widening search, which looks
+    for a concrete failing input on the implementation and does not need the model's answers"""
     wd = f"{WORK}/{pid}"
     os.makedirs(wd, exist_ok=True)
     binp = f"{HARNESS}/target/{'release' if release else 'debug'}/xeh-verif-harness"
@@ -149,6 +151,8 @@ def run_cases(pid, seed, n, tier, release, report, tagsuffix=""):
         report["harness_run_error"] = f"rc={rc} (a crash/abort of the implementation process?)\n{out[-2000:]}"
         return None
     stats = json.load(open(f"{base}.stats.json"))
+    if not model:
+        return {"stats": stats, "disagreements": [], "ops": [], "imp": [], "unsupported": 0}
     with open(f"{base}.ops") as fi, open(f"{base}.model", "w") as fo:
         p = subprocess.run([f"{LEAN}/.lake/build/bin/xehdriver"], stdin=fi, stdout=fo, stderr=subprocess.PIPE, text=True, timeout=3000)
     if p.returncode != 0:
@@ -272,8 +276,10 @@ def main():
         # widen the search for a concrete failing input with other seeds
         found = []
         if h_ok and not infra_broken:
+            # bounded: a few times the quick size, whatever the tier (the thorough sizes are too large to repeat)
+            wn = min(n * 2, max(4 * cfg["n_quick"], 2000))
             for extra in range(1, 4):
-                r = run_cases(pid, seed + 1000 * extra, n * 2, tier, False, report)
+                r = run_cases(pid, seed + 1000 * extra, wn, "quick", False, report, model=False)
                 if r is None: break
                 fs = [f for f in r["stats"]["oracle_failures"] if not matches_known(pid, f["case"] + " " + f["observed"], known)]
                 if fs:
